@@ -6,11 +6,20 @@ package main
 // and array filters built from the supported BSON types: operator arguments of
 // the wrong type, unknown operators, empty keys and paths, numeric and dotted
 // path corner cases, huge and non-finite numbers, document- and binary-valued
-// ids.  After a driver call a probe write must still succeed.
+// ids, negative and huge skip / limit, array indexes around the back-fill
+// bound.  After the driver calls of an iteration a probe write must still
+// succeed.  Model-free.
+//
+// Every failure is a replayable script of the model-free family `panicscript`
+// (`(entry <name> <input>...)`, `(driver <name> <stored doc> <input>...)`,
+// `(skip ...)`, `(backfill ...)`, `(unsetid ...)`, `(hugelimit ...)`): the run
+// function re-executes it on the real code and answers OK or FAIL <signature>.
 
 import (
 	"context"
 	"fmt"
+	"math"
+	"strconv"
 	"strings"
 	"time"
 
@@ -31,10 +40,12 @@ var allOperators = []string{
 	"$addToSet", "$bit", "$each", "$position", "$sort", "$slice", "$type", "$", "$$", "$foo", "$[]", "$[x]",
 	"bsonType", "required", "properties", "items", "enum", "minimum", "maximum", "minItems", "maxItems", "uniqueItems", "type",
 	"allOf", "anyOf", "oneOf", "not", "additionalProperties", "minLength", "maxLength", "multipleOf", "minProperties", "dependencies",
+	"pattern", "patternProperties", "additionalItems", "exclusiveMinimum", "exclusiveMaximum", "maxProperties",
 }
 
 var weirdPaths = []string{"", "a", "a.b", "a.", ".a", "a..b", "0", "a.0", "a.0.b", "a.$[]", "a.$[x].b", "a.$", "$", "_id", "a.-1", "a.+1", "a.00",
-	"a.999", "a.b.c.d", "a.1.2", "x\x00y", "a.$[]", "a.$[].b.$[y]"}
+	"a.999", "a.b.c.d", "a.1.2", "x\x00y", "a.$[]", "a.$[].b.$[y]", "a.1600000", "a.9223372036854775807", "a.9223372036854775808",
+	"a.99999999999999999999", "b.0.1600001", ".", ".."}
 
 func genWeirdValue(r *rng, depth int) interface{} {
 	if depth <= 0 {
@@ -95,56 +106,491 @@ func guarded(fn func()) string {
 	}
 }
 
+// panicSignature: stable id of the kind of failure
+func panicSignature(fn, res string) string {
+	kind := "panic"
+	if res == "HANG" {
+		kind = "hang"
+	}
+	sig := "C20:" + kind + ":" + fn
+	switch {
+	case strings.Contains(res, "slice bounds") || strings.Contains(res, "index out of range"):
+		sig += ":bounds"
+	case strings.Contains(res, "uncomparable"):
+		sig += ":uncomparable"
+	case strings.Contains(res, "interface conversion"):
+		sig += ":type-assertion"
+	case strings.Contains(res, "nil pointer"):
+		sig += ":nil"
+	case strings.Contains(res, "divide by zero"):
+		sig += ":div0"
+	case strings.Contains(res, "makeslice"):
+		sig += ":makeslice"
+	case strings.Contains(res, "unsupported type"):
+		sig += ":unsupported-type"
+	}
+	return sig
+}
+
+// ---------------------------------------------------------------------------
+// entry points of bsonkit / mongokit: name, number of inputs, call.  Inputs are
+// decoded values (bson.D documents, string paths, arbitrary values); flags are
+// not inputs: every combination is called.
+
+type panicEntry struct {
+	name string
+	run  func(in []interface{})
+}
+
+func asD(v interface{}) bson.D {
+	if d, ok := v.(bson.D); ok {
+		return d
+	}
+	return bson.D{}
+}
+func asS(v interface{}) string {
+	if s, ok := v.(string); ok {
+		return s
+	}
+	return ""
+}
+func cl(v interface{}) bsonkit.Doc { return bsonkit.MustConvert(asD(v)) }
+
+var bools = []bool{false, true}
+
+var panicEntries = []panicEntry{
+	{"bsonkit.Compare", func(in []interface{}) { bsonkit.Compare(in[0], in[1]); bsonkit.Compare(in[1], in[0]) }},
+	{"bsonkit.Get", func(in []interface{}) { bsonkit.Get(cl(in[0]), asS(in[1])) }},
+	{"bsonkit.All", func(in []interface{}) {
+		for _, a := range bools {
+			for _, b := range bools {
+				bsonkit.All(cl(in[0]), asS(in[1]), a, b)
+			}
+		}
+	}},
+	{"bsonkit.Put", func(in []interface{}) {
+		for _, a := range bools {
+			bsonkit.Put(cl(in[0]), asS(in[1]), in[2], a)
+		}
+	}},
+	{"bsonkit.Increment", func(in []interface{}) { bsonkit.Increment(cl(in[0]), asS(in[1]), in[2]) }},
+	{"bsonkit.Multiply", func(in []interface{}) { bsonkit.Multiply(cl(in[0]), asS(in[1]), in[2]) }},
+	{"bsonkit.Push", func(in []interface{}) { bsonkit.Push(cl(in[0]), asS(in[1]), in[2]) }},
+	{"bsonkit.Unset", func(in []interface{}) { bsonkit.Unset(cl(in[0]), asS(in[1])) }},
+	{"bsonkit.Pop", func(in []interface{}) {
+		for _, a := range bools {
+			bsonkit.Pop(cl(in[0]), asS(in[1]), a)
+		}
+	}},
+	{"bsonkit.Add", func(in []interface{}) { bsonkit.Add(in[0], in[1]); bsonkit.Add(in[1], in[0]) }},
+	{"bsonkit.Mul", func(in []interface{}) { bsonkit.Mul(in[0], in[1]); bsonkit.Mul(in[1], in[0]) }},
+	{"bsonkit.Mod", func(in []interface{}) { bsonkit.Mod(in[0], in[1]); bsonkit.Mod(in[1], in[0]) }},
+	{"bsonkit.Collect", func(in []interface{}) {
+		list := bsonkit.List{cl(in[0]), cl(in[1]), cl(in[0])}
+		for i := 0; i < 16; i++ {
+			bsonkit.Collect(list, asS(in[2]), i&1 != 0, i&2 != 0, i&4 != 0, i&8 != 0)
+		}
+	}},
+	{"mongokit.Match", func(in []interface{}) { mongokit.Match(cl(in[0]), cl(in[1])) }},
+	{"mongokit.Extract", func(in []interface{}) { mongokit.Extract(cl(in[0])) }},
+	{"mongokit.Apply", func(in []interface{}) {
+		for _, up := range bools {
+			mongokit.Apply(cl(in[0]), cl(in[1]), cl(in[2]), up, bsonkit.List{cl(in[3])})
+			mongokit.Apply(cl(in[0]), cl(in[1]), cl(in[2]), up, nil)
+		}
+	}},
+	{"mongokit.Project", func(in []interface{}) { mongokit.Project(cl(in[0]), cl(in[1])) }},
+	{"mongokit.Sort", func(in []interface{}) {
+		mongokit.Sort(bsonkit.List{cl(in[0]), cl(in[1]), cl(in[0])}, cl(in[2]))
+	}},
+	{"mongokit.Columns", func(in []interface{}) { mongokit.Columns(cl(in[0])) }},
+	{"mongokit.Distinct", func(in []interface{}) {
+		mongokit.Distinct(bsonkit.List{cl(in[0]), cl(in[1]), cl(in[0])}, asS(in[2]))
+	}},
+	{"mongokit.CreateIndex+Build", func(in []interface{}) {
+		for _, u := range bools {
+			ix, err := mongokit.CreateIndex(mongokit.IndexConfig{Key: cl(in[1]), Unique: u, Partial: cl(in[2])})
+			if err == nil {
+				ix.Build(bsonkit.List{cl(in[0]), cl(in[1]), cl(in[0])})
+			}
+		}
+	}},
+	{"mongokit.Collection", func(in []interface{}) {
+		// Insert, Find / Update / Delete with the window given as the value inputs
+		c := mongokit.NewCollection(true)
+		c.Insert(cl(in[0]))
+		c.Insert(bsonkit.MustConvert(bson.D{{Key: "_id", Value: int32(7)}}))
+		sk, li := int(asI(in[3])), int(asI(in[4]))
+		c.Find(cl(in[1]), cl(in[2]), sk, li)
+		c.Update(cl(in[1]), bsonkit.MustConvert(bson.D{{Key: "$set", Value: bson.D{{Key: "q", Value: int32(1)}}}}), cl(in[2]), sk, li, nil)
+		c.Delete(cl(in[1]), cl(in[2]), sk, li)
+	}},
+	{"bsonkit.schema", func(in []interface{}) {
+		mongokit.Match(cl(in[0]), bsonkit.MustConvert(bson.D{{Key: "$jsonSchema", Value: asD(in[1])}}))
+	}},
+}
+
+func asI(v interface{}) int64 {
+	switch x := v.(type) {
+	case int64:
+		return x
+	case int32:
+		return int64(x)
+	}
+	return 0
+}
+
+func findEntry(name string) *panicEntry {
+	for i := range panicEntries {
+		if panicEntries[i].name == name {
+			return &panicEntries[i]
+		}
+	}
+	return nil
+}
+
+// ---------------------------------------------------------------------------
+// driver level: a fresh collection holding one stored document, then one call
+
+type driverEntry struct {
+	name string
+	run  func(ctx context.Context, coll lungo.ICollection, stored bson.D, in []interface{})
+}
+
+var panicWindow = []int64{0, 1, 2, -1, -7, math.MinInt64, math.MaxInt64, 1<<62 + 1, 1<<63 - 2}
+
+var driverEntries = []driverEntry{
+	{"Collection.UpdateOne", func(ctx context.Context, coll lungo.ICollection, st bson.D, in []interface{}) {
+		coll.UpdateOne(ctx, bson.D{{Key: "_id", Value: st[0].Value}}, in[0])
+	}},
+	{"Collection.UpdateMany", func(ctx context.Context, coll lungo.ICollection, st bson.D, in []interface{}) {
+		for _, up := range bools {
+			coll.UpdateMany(ctx, in[0], bson.D{{Key: "$set", Value: bson.D{{Key: "z", Value: in[1]}}}}, options.Update().SetUpsert(up))
+		}
+	}},
+	{"Collection.ReplaceOne", func(ctx context.Context, coll lungo.ICollection, st bson.D, in []interface{}) {
+		coll.ReplaceOne(ctx, bson.D{{Key: "_id", Value: st[0].Value}}, bson.D{{Key: "b", Value: in[0]}})
+		coll.ReplaceOne(ctx, in[1], in[2], options.Replace().SetUpsert(true))
+	}},
+	{"Collection.Find", func(ctx context.Context, coll lungo.ICollection, st bson.D, in []interface{}) {
+		cur, err := coll.Find(ctx, in[0], options.Find().SetSort(in[1]).SetProjection(in[2]).SetSkip(asI(in[3])).SetLimit(asI(in[4])))
+		if err == nil {
+			var out []bson.D
+			cur.All(ctx, &out)
+		}
+	}},
+	{"Collection.FindOne", func(ctx context.Context, coll lungo.ICollection, st bson.D, in []interface{}) {
+		var out bson.D
+		coll.FindOne(ctx, in[0], options.FindOne().SetSort(in[1]).SetProjection(in[2]).SetSkip(asI(in[3]))).Decode(&out)
+	}},
+	{"Collection.CountDocuments", func(ctx context.Context, coll lungo.ICollection, st bson.D, in []interface{}) {
+		coll.CountDocuments(ctx, in[0], options.Count().SetSkip(asI(in[1])).SetLimit(asI(in[2])))
+	}},
+	{"Collection.FindOneAndUpdate", func(ctx context.Context, coll lungo.ICollection, st bson.D, in []interface{}) {
+		for _, up := range bools {
+			coll.FindOneAndUpdate(ctx, in[0], in[1], options.FindOneAndUpdate().SetArrayFilters(options.ArrayFilters{Filters: []interface{}{in[2]}}).SetUpsert(up).SetProjection(in[3]))
+		}
+	}},
+	{"Collection.FindOneAndDelete", func(ctx context.Context, coll lungo.ICollection, st bson.D, in []interface{}) {
+		coll.FindOneAndDelete(ctx, in[0], options.FindOneAndDelete().SetSort(in[1]).SetProjection(in[2]))
+	}},
+	{"Collection.DeleteMany", func(ctx context.Context, coll lungo.ICollection, st bson.D, in []interface{}) {
+		coll.DeleteMany(ctx, in[0])
+	}},
+	{"Collection.Distinct", func(ctx context.Context, coll lungo.ICollection, st bson.D, in []interface{}) {
+		// the empty field name is a documented panic ("lungo: missing field path")
+		f := asS(in[0])
+		if f == "" {
+			f = "a"
+		}
+		coll.Distinct(ctx, f, in[1])
+	}},
+	{"Indexes.CreateOne", func(ctx context.Context, coll lungo.ICollection, st bson.D, in []interface{}) {
+		coll.Indexes().CreateOne(ctx, mongo.IndexModel{Keys: in[0], Options: options.Index().SetPartialFilterExpression(in[1])})
+	}},
+	{"Collection.BulkWrite", func(ctx context.Context, coll lungo.ICollection, st bson.D, in []interface{}) {
+		coll.BulkWrite(ctx, []mongo.WriteModel{
+			mongo.NewUpdateManyModel().SetFilter(in[0]).SetUpdate(in[1]).SetUpsert(true),
+			mongo.NewReplaceOneModel().SetFilter(in[0]).SetReplacement(in[2]),
+			mongo.NewDeleteOneModel().SetFilter(in[0]),
+			mongo.NewInsertOneModel().SetDocument(in[2]),
+		})
+	}},
+}
+
+func findDriverEntry(name string) *driverEntry {
+	for i := range driverEntries {
+		if driverEntries[i].name == name {
+			return &driverEntries[i]
+		}
+	}
+	return nil
+}
+
+// runDriverEntry: insert `stored` into a fresh collection, run the call, then a
+// probe write; result "" | PANIC... | HANG | "ENGINE: ..."
+func runDriverEntry(client lungo.IClient, collName string, e *driverEntry, stored bson.D, in []interface{}) string {
+	ctx := context.Background()
+	coll := client.Database("db").Collection(collName)
+	res := guarded(func() {
+		coll.InsertOne(ctx, stored)
+		e.run(ctx, coll, stored, in)
+	})
+	probe := guarded(func() {
+		c2, cancel := context.WithTimeout(ctx, 2*time.Second)
+		defer cancel()
+		if _, err := client.Database("db").Collection("probe").InsertOne(c2, bson.D{{Key: "n", Value: collName}}); err != nil {
+			panic("probe write failed: " + err.Error())
+		}
+	})
+	guarded(func() { coll.Drop(ctx) })
+	if res == "" && probe != "" {
+		return "ENGINE: after the call a probe write no longer succeeds: " + probe
+	}
+	return res
+}
+
+// ---------------------------------------------------------------------------
+// scripts (model-free family `panicscript`)
+
+func encInput(v interface{}) string {
+	if s, ok := v.(string); ok {
+		return "(str " + hx(s) + ")"
+	}
+	return enc(v)
+}
+
+func decInput(n *sx) interface{} {
+	if n.isL && len(n.list) == 2 && n.list[0].atom == "str" {
+		return unhx(n.list[1].atom)
+	}
+	return decValue(n)
+}
+
+func scriptOf(kind, name string, in []interface{}) string {
+	parts := []string{kind, hx(name)}
+	for _, v := range in {
+		parts = append(parts, encInput(v))
+	}
+	return "(" + strings.Join(parts, " ") + ")"
+}
+
+func withEngine(fn func(client lungo.IClient)) {
+	client, engine, err := lungo.Open(nil, lungo.Options{Store: lungo.NewMemoryStore(), ExpireInterval: time.Hour})
+	if err != nil {
+		panic(err)
+	}
+	defer engine.Close()
+	fn(client)
+}
+
+// the targeted scripts return "" or a failure text
+func scriptSkip(call string, skip, limit int64) string {
+	res := ""
+	withEngine(func(client lungo.IClient) {
+		ctx := context.Background()
+		coll := client.Database("db").Collection("c")
+		coll.InsertOne(ctx, bson.D{{Key: "_id", Value: int32(1)}})
+		coll.InsertOne(ctx, bson.D{{Key: "_id", Value: int32(2)}})
+		res = guarded(func() {
+			switch call {
+			case "find":
+				cur, err := coll.Find(ctx, bson.D{}, options.Find().SetSkip(skip).SetLimit(limit))
+				if err == nil {
+					var out []bson.D
+					cur.All(ctx, &out)
+				}
+			case "findOne":
+				var out bson.D
+				coll.FindOne(ctx, bson.D{}, options.FindOne().SetSkip(skip)).Decode(&out)
+			default:
+				coll.CountDocuments(ctx, bson.D{}, options.Count().SetSkip(skip).SetLimit(limit))
+			}
+		})
+	})
+	return res
+}
+
+const backfillBound = 1500000
+
+// Put at index len+offset of an array of length n: refused iff offset > bound
+func scriptBackfill(n, offset int64) string {
+	arr := bson.A{}
+	for i := int64(0); i < n; i++ {
+		arr = append(arr, int32(i))
+	}
+	d := bsonkit.MustConvert(bson.D{{Key: "a", Value: arr}})
+	var err error
+	res := guarded(func() { _, err = bsonkit.Put(d, "a."+strconv.FormatInt(n+offset, 10), int32(1), false) })
+	if res != "" {
+		return res
+	}
+	if offset > backfillBound && err == nil {
+		return fmt.Sprintf("Put padded an array of %d elements by %d nulls (bound %d): the padding is not bounded", n, offset, backfillBound)
+	}
+	if offset <= backfillBound && err != nil {
+		return fmt.Sprintf("Put refused to pad an array of %d elements by %d nulls (bound %d): %v", n, offset, backfillBound, err)
+	}
+	return ""
+}
+
+func scriptUnsetID(op string, id interface{}) string {
+	res := ""
+	withEngine(func(client lungo.IClient) {
+		ctx := context.Background()
+		coll := client.Database("db").Collection("c")
+		coll.InsertOne(ctx, bson.D{{Key: "_id", Value: id}, {Key: "a", Value: int32(1)}})
+		upd := bson.D{{Key: "$unset", Value: bson.D{{Key: "_id", Value: ""}}}}
+		if op == "rename" {
+			upd = bson.D{{Key: "$rename", Value: bson.D{{Key: "_id", Value: "zz"}}}}
+		}
+		res = guarded(func() {
+			coll.UpdateOne(ctx, bson.D{}, upd)
+			coll.UpdateMany(ctx, bson.D{}, upd)
+			coll.FindOneAndUpdate(ctx, bson.D{}, upd)
+		})
+		if res == "" {
+			var out bson.D
+			if err := coll.FindOne(ctx, bson.D{}).Decode(&out); err == nil {
+				if len(out) == 0 || out[0].Key != "_id" {
+					res = "the stored document lost its _id: " + enc(out)
+				}
+			}
+		}
+	})
+	return res
+}
+
+func runPanicScript(c *sx) string {
+	fail := func(sig, res string) string {
+		if res == "" {
+			return "OK"
+		}
+		return "FAIL " + sig + " " + res
+	}
+	switch c.list[0].atom {
+	case "entry":
+		name := unhx(c.list[1].atom)
+		e := findEntry(name)
+		if e == nil {
+			return "BAD-CASE"
+		}
+		var in []interface{}
+		for _, n := range c.list[2:] {
+			in = append(in, decInput(n))
+		}
+		res := guarded(func() { e.run(in) })
+		return fail(panicSignature(name, res), res)
+	case "driver":
+		name := unhx(c.list[1].atom)
+		e := findDriverEntry(name)
+		if e == nil {
+			return "BAD-CASE"
+		}
+		stored := asD(decValue(c.list[2]))
+		var in []interface{}
+		for _, n := range c.list[3:] {
+			in = append(in, decInput(n))
+		}
+		res := ""
+		withEngine(func(client lungo.IClient) { res = runDriverEntry(client, "c", e, stored, in) })
+		if strings.HasPrefix(res, "ENGINE:") {
+			return fail("C20:engine-unusable", res)
+		}
+		return fail(panicSignature(name, res), res)
+	case "skip":
+		res := scriptSkip(c.list[1].atom, atoi64(c.list[2].atom), atoi64(c.list[3].atom))
+		sig := "C20:negative-skip-panic"
+		if atoi64(c.list[2].atom) >= 0 {
+			sig = "C20:huge-limit-preallocation"
+		}
+		return fail(sig, res)
+	case "backfill":
+		return fail("C20:array-backfill-unbounded", scriptBackfill(atoi64(c.list[1].atom), atoi64(c.list[2].atom)))
+	case "unsetid":
+		return fail("C20:unset-empty-document-id-panic", scriptUnsetID(c.list[1].atom, decValue(c.list[2])))
+	}
+	return "BAD-CASE"
+}
+
+// ---------------------------------------------------------------------------
+
 func oraclePanic(r *rng, n int, st *oracleStats) []oracleFailure {
-	st.Rule = "malformed stream: documents / filters / updates / projections / sorts / array filters whose keys are drawn from all operator names (query, update, projection, schema keywords, unknown), odd paths (empty, leading/trailing/double dots, numeric, positional) and plain keys, with arbitrary supported BSON values as arguments; each of ~25 entry points called under recover() and a 10 s watchdog; driver calls are followed by a probe write; non-trivial = the input contains at least one operator key"
+	st.Rule = "malformed stream: documents / filters / updates / projections / sorts / array filters whose keys are drawn from all operator names (query, update, projection, schema keywords, unknown), odd paths (empty, leading/trailing/double dots, numeric, positional, indexes beyond the back-fill bound and beyond int64) and plain keys, with arbitrary supported BSON values as arguments; each of 24 bsonkit/mongokit entry points is called under recover() and a 10 s watchdog with every flag combination; every fourth iteration 12 driver calls run on a fresh collection holding a document with a document-/binary-/array-/scalar-valued _id, with skip and limit from {0, 1, 2, -1, -7, MinInt64, MaxInt64, 2^62+1, 2^63-2}, each followed by a probe write; plus the targeted scripts (negative skip, huge limit, back-fill bound at 1499999/1500000/1500001/2^31/2^62 relative to the array length, $unset/$rename of an empty-document _id); non-trivial = the input contains at least one operator key"
 	var fails []oracleFailure
 	seenSig := map[string]bool{}
-	report := func(fn, res string, inputs ...interface{}) {
-		if res == "" {
-			return
-		}
-		kind := "panic"
-		if res == "HANG" {
-			kind = "hang"
-		}
-		sig := "C20:" + kind + ":" + fn
-		if strings.Contains(res, "slice bounds") || strings.Contains(res, "index out of range") {
-			sig += ":bounds"
-		} else if strings.Contains(res, "uncomparable") {
-			sig += ":uncomparable"
-		} else if strings.Contains(res, "interface conversion") {
-			sig += ":type-assertion"
-		} else if strings.Contains(res, "nil pointer") {
-			sig += ":nil"
-		} else if strings.Contains(res, "divide by zero") {
-			sig += ":div0"
-		}
-		if seenSig[sig] || len(fails) >= 15 {
+	add := func(sig, what, script string) {
+		if seenSig[sig] || len(fails) >= 20 {
 			return
 		}
 		seenSig[sig] = true
-		var ins []string
-		for _, in := range inputs {
-			switch x := in.(type) {
-			case string:
-				ins = append(ins, "str:"+hx(x))
-			default:
-				ins = append(ins, enc(x))
+		fails = append(fails, oracleFailure{Property: "C20", Signature: sig, What: what, Family: "panicscript", Case: script})
+	}
+
+	// targeted scripts first (cheap, deterministic)
+	for _, call := range []string{"find", "findOne", "count"} {
+		for _, sk := range []int64{-1, math.MinInt64} {
+			if res := scriptSkip(call, sk, 0); res != "" {
+				add("C20:negative-skip-panic", call+" with skip "+strconv.FormatInt(sk, 10)+": "+res, fmt.Sprintf("(skip %s %d 0)", call, sk))
 			}
 		}
-		fails = append(fails, oracleFailure{Property: "C20", Signature: sig, What: fn + ": " + res, Detail: ins})
+		for _, li := range []int64{math.MaxInt64, 1 << 62, math.MinInt64, -1} {
+			if call == "findOne" {
+				continue
+			}
+			if res := scriptSkip(call, 0, li); res != "" {
+				add("C20:huge-limit-preallocation", call+" with limit "+strconv.FormatInt(li, 10)+": "+res, fmt.Sprintf("(skip %s 0 %d)", call, li))
+			}
+		}
+	}
+	st.Dist["targeted-scripts"] += 20
+	// back-fill: the moderate offsets first; the absurd ones only when those are
+	// refused (without the bound they would exhaust the memory of the process)
+	bounded := true
+	for _, c := range [][2]int64{{0, 1499999}, {3, backfillBound}, {0, backfillBound + 1}, {5, backfillBound + 1}, {2, 3000000}} {
+		if res := scriptBackfill(c[0], c[1]); res != "" {
+			add("C20:array-backfill-unbounded", res, fmt.Sprintf("(backfill %d %d)", c[0], c[1]))
+			if c[1] > backfillBound {
+				bounded = false
+			}
+		}
+	}
+	if bounded {
+		for _, off := range []int64{1 << 31, 1 << 62, math.MaxInt64 - 7, math.MaxInt64 - 2} {
+			if res := scriptBackfill(2, off-2); res != "" {
+				add("C20:array-backfill-unbounded", res, fmt.Sprintf("(backfill 2 %d)", off-2))
+			}
+		}
+	}
+	for _, op := range []string{"unset", "rename"} {
+		for _, id := range []interface{}{bson.D{}, bson.D{{Key: "k", Value: int32(1)}}, primitive.Binary{Data: []byte{}}, bson.A{}, nil, int32(0)} {
+			if res := scriptUnsetID(op, id); res != "" {
+				add("C20:unset-empty-document-id-panic", "$"+op+" of _id on a document whose _id is "+enc(id)+": "+res, "(unsetid "+op+" "+enc(id)+")")
+			}
+		}
 	}
 
-	client, engine, err := lungo.Open(nil, lungo.Options{Store: lungo.NewMemoryStore(), ExpireInterval: time.Hour})
-	if err != nil {
-		return nil
-	}
-	defer engine.Close()
-	coll := client.Database("db").Collection("c")
-	ctx := context.Background()
-	probe := 0
+	// a fresh engine every 100 iterations: local.oplog keeps every event of the
+	// run (retention by age), and every transaction clones the catalog
+	var client lungo.IClient
+	var engine *lungo.Engine
+	defer func() {
+		if engine != nil {
+			engine.Close()
+		}
+	}()
 
 	for i := 0; i < n; i++ {
+		if i%100 == 0 {
+			if engine != nil {
+				engine.Close()
+			}
+			var err error
+			client, engine, err = lungo.Open(nil, lungo.Options{Store: lungo.NewMemoryStore(), ExpireInterval: time.Hour})
+			if err != nil {
+				return fails
+			}
+		}
 		st.Evaluations++
 		doc := genDocD(r, 3, r.chance(1, 2))
 		if r.chance(1, 4) {
@@ -161,89 +607,54 @@ func oraclePanic(r *rng, n int, st *oracleStats) []oracleFailure {
 		if len(st.Samples) < 3 {
 			st.Samples = append(st.Samples, "doc="+enc(doc)+" weird="+enc(w1))
 		}
-		cl := func() bsonkit.Doc { d := bsonkit.MustConvert(doc); return d }
-		wd := func(d bson.D) bsonkit.Doc { x := bsonkit.MustConvert(d); return x }
-		val := genWeirdValue(r, 2)
-
-		st.Dist["entry-points"] += 24
-		report("bsonkit.Compare", guarded(func() { bsonkit.Compare(val, genWeirdValue(r, 2)) }), val)
-		report("bsonkit.Get", guarded(func() { bsonkit.Get(cl(), path) }), doc, path)
-		report("bsonkit.All", guarded(func() { bsonkit.All(cl(), path, r.chance(1, 2), r.chance(1, 2)) }), doc, path)
-		if !strings.Contains(path, "999") {
-			report("bsonkit.Put", guarded(func() { bsonkit.Put(cl(), path, val, r.chance(1, 2)) }), doc, path, val)
-			report("bsonkit.Increment", guarded(func() { bsonkit.Increment(cl(), path, val) }), doc, path, val)
-			report("bsonkit.Multiply", guarded(func() { bsonkit.Multiply(cl(), path, val) }), doc, path, val)
-			report("bsonkit.Push", guarded(func() { bsonkit.Push(cl(), path, val) }), doc, path, val)
+		val, val2, num := genWeirdValue(r, 2), genWeirdValue(r, 2), genNumber(r)
+		sk, li := pick(r, panicWindow), pick(r, panicWindow)
+		inputs := map[string][]interface{}{
+			"bsonkit.Compare": {val, val2}, "bsonkit.Get": {doc, path}, "bsonkit.All": {doc, path}, "bsonkit.Put": {doc, path, val},
+			"bsonkit.Increment": {doc, path, val}, "bsonkit.Multiply": {doc, path, val}, "bsonkit.Push": {doc, path, val},
+			"bsonkit.Unset": {doc, path}, "bsonkit.Pop": {doc, path}, "bsonkit.Add": {val, num}, "bsonkit.Mul": {val, num}, "bsonkit.Mod": {val, num},
+			"bsonkit.Collect": {doc, w3, path}, "mongokit.Match": {doc, w1}, "mongokit.Extract": {w1}, "mongokit.Apply": {doc, w1, w2, w3},
+			"mongokit.Project": {doc, w1}, "mongokit.Sort": {doc, w3, w1}, "mongokit.Columns": {w1}, "mongokit.Distinct": {doc, w3, path},
+			"mongokit.CreateIndex+Build": {doc, w3, w1}, "mongokit.Collection": {doc, w1, w3, sk, li}, "bsonkit.schema": {doc, w1},
 		}
-		report("bsonkit.Unset", guarded(func() { bsonkit.Unset(cl(), path) }), doc, path)
-		report("bsonkit.Pop", guarded(func() { bsonkit.Pop(cl(), path, r.chance(1, 2)) }), doc, path)
-		report("bsonkit.Add", guarded(func() { bsonkit.Add(val, genNumber(r)) }), val)
-		report("bsonkit.Mul", guarded(func() { bsonkit.Mul(genNumber(r), val) }), val)
-		report("bsonkit.Mod", guarded(func() { bsonkit.Mod(genNumber(r), val); bsonkit.Mod(val, genNumber(r)) }), val)
-		list := bsonkit.List{cl(), wd(w3), cl()}
-		report("bsonkit.Collect", guarded(func() { bsonkit.Collect(list, path, r.chance(1, 2), r.chance(1, 2), r.chance(1, 2), r.chance(1, 2)) }), doc, path)
-		report("mongokit.Match", guarded(func() { mongokit.Match(cl(), wd(w1)) }), doc, w1)
-		report("mongokit.Extract", guarded(func() { mongokit.Extract(wd(w1)) }), w1)
-		if !strings.Contains(enc(w2), "393939") {
-			report("mongokit.Apply", guarded(func() {
-				mongokit.Apply(cl(), wd(w1), wd(w2), r.chance(1, 2), bsonkit.List{wd(w3)})
-			}), doc, w1, w2, w3)
-		}
-		report("mongokit.Project", guarded(func() { mongokit.Project(cl(), wd(w1)) }), doc, w1)
-		report("mongokit.Sort", guarded(func() { mongokit.Sort(list, wd(w1)) }), doc, w1)
-		report("mongokit.Columns", guarded(func() { mongokit.Columns(wd(w1)) }), w1)
-		report("mongokit.Distinct", guarded(func() { mongokit.Distinct(list, path) }), doc, path)
-		report("mongokit.CreateIndex+Build", guarded(func() {
-			ix, err := mongokit.CreateIndex(mongokit.IndexConfig{Key: wd(w3), Unique: r.chance(1, 2), Partial: wd(w1)})
-			if err == nil {
-				ix.Build(list)
+		st.Dist["entry-points"] += len(panicEntries)
+		for ei := range panicEntries {
+			e := &panicEntries[ei]
+			in := inputs[e.name]
+			if res := guarded(func() { e.run(in) }); res != "" {
+				add(panicSignature(e.name, res), e.name+": "+res, scriptOf("entry", e.name, in))
 			}
-		}), w3, w1)
-		report("bsonkit.schema", guarded(func() {
-			mongokit.Match(cl(), bsonkit.MustConvert(bson.D{{Key: "$jsonSchema", Value: w1}}))
-		}), doc, w1)
+		}
 
-		// driver level (every few iterations; keeps the collection small)
+		// driver level (every few iterations)
 		if i%4 == 0 {
-			st.Dist["driver-calls"] += 7
-			idDoc := bson.D{{Key: "_id", Value: pick(r, []interface{}{bson.D{{Key: "k", Value: int32(r.intn(2))}}, primitive.Binary{Data: []byte{byte(r.intn(2))}}, int32(r.intn(3)), bson.A{int32(1)}})}, {Key: "a", Value: val}}
-			report("Collection.InsertOne", guarded(func() { coll.InsertOne(ctx, idDoc) }), idDoc)
-			report("Collection.UpdateOne", guarded(func() { coll.UpdateOne(ctx, bson.D{{Key: "_id", Value: idDoc[0].Value}}, w2) }), idDoc, w2)
-			report("Collection.UpdateMany(weird filter)", guarded(func() {
-				coll.UpdateMany(ctx, w1, bson.D{{Key: "$set", Value: bson.D{{Key: "z", Value: val}}}}, options.Update().SetUpsert(r.chance(1, 2)))
-			}), w1, val)
-			report("Collection.ReplaceOne", guarded(func() {
-				coll.ReplaceOne(ctx, bson.D{{Key: "_id", Value: idDoc[0].Value}}, bson.D{{Key: "b", Value: val}})
-			}), idDoc)
-			report("Collection.Find", guarded(func() {
-				cur, err := coll.Find(ctx, w1, options.Find().SetSort(w3).SetProjection(w2).SetSkip(int64(r.intn(3))).SetLimit(int64(r.intn(3))))
-				if err == nil {
-					var out []bson.D
-					cur.All(ctx, &out)
-				}
-			}), w1, w3, w2)
-			report("Collection.FindOneAndUpdate", guarded(func() {
-				coll.FindOneAndUpdate(ctx, w1, w2, options.FindOneAndUpdate().SetArrayFilters(options.ArrayFilters{Filters: []interface{}{w3}}).SetUpsert(r.chance(1, 3)))
-			}), w1, w2, w3)
-			report("Collection.Distinct", guarded(func() { coll.Distinct(ctx, pick(r, []string{"a", "a.b", "_id", "a.0"}), w1) }), w1)
-			report("Indexes.CreateOne", guarded(func() {
-				coll.Indexes().CreateOne(ctx, mongo.IndexModel{Keys: w3, Options: options.Index().SetPartialFilterExpression(w1)})
-			}), w3, w1)
-			// the engine must still serve the next call
-			probe++
-			res := guarded(func() {
-				c2, cancel := context.WithTimeout(ctx, 2*time.Second)
-				defer cancel()
-				if _, err := client.Database("db").Collection("probe").InsertOne(c2, bson.D{{Key: "n", Value: int64(probe)}}); err != nil {
-					panic("probe write failed: " + err.Error())
-				}
-			})
-			if res != "" && !seenSig["C20:engine-unusable"] {
-				seenSig["C20:engine-unusable"] = true
-				fails = append(fails, oracleFailure{Property: "C20", Signature: "C20:engine-unusable", What: "after the preceding calls a probe write no longer succeeds: " + res})
+			st.Dist["driver-calls"] += len(driverEntries)
+			id := pick(r, []interface{}{bson.D{{Key: "k", Value: int32(r.intn(2))}}, malEmptyID(), primitive.Binary{Data: []byte{byte(r.intn(2))}},
+				primitive.Binary{Subtype: 128, Data: []byte{}}, int32(r.intn(3)), bson.A{int32(1)}, nil, math.NaN()})
+			stored := bson.D{{Key: "_id", Value: id}, {Key: "a", Value: val}, {Key: "arr", Value: bson.A{int32(1), bson.D{{Key: "q", Value: val2}}}}}
+			dinputs := map[string][]interface{}{
+				"Collection.UpdateOne": {w2}, "Collection.UpdateMany": {w1, val}, "Collection.ReplaceOne": {val, w1, w3},
+				"Collection.Find": {w1, w3, w2, sk, li}, "Collection.FindOne": {w1, w3, w2, sk}, "Collection.CountDocuments": {w1, sk, li},
+				"Collection.FindOneAndUpdate": {w1, w2, w3, w3}, "Collection.FindOneAndDelete": {w1, w3, w2}, "Collection.DeleteMany": {w1},
+				"Collection.Distinct": {path, w1}, "Indexes.CreateOne": {w3, w1}, "Collection.BulkWrite": {w1, w2, stored},
 			}
-			if i%40 == 0 {
-				coll.Drop(ctx)
+			for ei := range driverEntries {
+				e := &driverEntries[ei]
+				in := dinputs[e.name]
+				res := runDriverEntry(client, "c"+strconv.Itoa(i)+"_"+strconv.Itoa(ei), e, stored, in)
+				if res == "" {
+					continue
+				}
+				script := "(driver " + hx(e.name) + " " + enc(stored)
+				for _, v := range in {
+					script += " " + encInput(v)
+				}
+				script += ")"
+				if strings.HasPrefix(res, "ENGINE:") {
+					add("C20:engine-unusable", res, script)
+				} else {
+					add(panicSignature(e.name, res), e.name+": "+res, script)
+				}
 			}
 		}
 	}
@@ -251,5 +662,6 @@ func oraclePanic(r *rng, n int, st *oracleStats) []oracleFailure {
 }
 
 func init() {
+	register(&family{name: "panicscript", gen: func(r *rng) string { return "(backfill 0 1)" }, run: runPanicScript})
 	registerOracle(&oracle{prop: "C20", name: "malformed-stream", run: oraclePanic})
 }
